@@ -28,7 +28,7 @@ claim("C01", "type-specialised SCCP over every pair of set representations (disp
       "UnionSet.unionSetSubsetBucket is unreachable; (R01b) element-type bucket == subset bucket of the set type its builder constructs, sets "
       "route to the generic bucket; (R01c) adding a foreign element to String/Bytes/Array/Dict always goes through toUnionSetWithItem (never "
       "dropped); (R01d) stored rows of two relations are only combined under explicit column projectors; (R02f, shared with C02) the derived count of a slot builder counts distinct slots; (R01e) Array.count is never used as a position in "
-      "Array.values; (R02g) Where/Without of every set representation return the receiver, a normalising constructor's result, or a built value tested for emptiness (one empty set); (R04d) raw rows stand in for projected rows only under isIdentity(); (R05d) dict maps rebuilt from entries keep every value of a key; (R07e) no union by flattening member sets through one "
+      "Array.values; (R02g) Where/Without of every set representation return the receiver, a normalising constructor's result, or a built value tested for emptiness (one empty set); (R04d) raw rows stand in for projected rows only under isIdentity(); (R05d) dict maps rebuilt from entries keep every value of a key; (R01f) every Dict method that reads map values or the key count handles keys with several values; (R07e) no union by flattening member sets through one "
       "set builder; (R03a, shared with C03) no operator writes "
       "into storage an operand or an earlier result still reaches (a result that overwrites its sibling makes a later union/difference wrong). Member arithmetic inside one "
       "representation (Count, Where, Has on colliding keys) is value-level and not decided.", NOTE, "DESIGN.md §3 C01")
@@ -142,7 +142,7 @@ claim("C05", "TS-SCCP dispatch totality of CallAll/Concatenate over all represen
       "Decides structural necessary conditions of keyed-collection semantics: (R05a) no CallAll(representation x argument type) or Concatenate(pair) "
       "cell definitely panics; (R05b) each branch of the >> / >>> evaluator that maps over a holey store tests the hole marker before handing the "
       "element to the function; (R05c) a function that builds a sequence from another operand's backing store also reads that operand's offset; "
-      "(R05d) a dict map is rebuilt from entries only with a look-up of the key in the builder (several values per key are kept); (R03a) no keyed-collection operator writes through a shared store. "
+      "(R05d) a dict map is rebuilt from entries only with a look-up of the key in the builder (several values per key are kept); (R01f) Dict methods that read map values handle keys with several values; (R03a) no keyed-collection operator writes through a shared store. "
       "Which value is returned for a key, the ?: fallback classification and shift arithmetic are value-level and not decided.", NOTE, "DESIGN.md §3 C05")
 
 claim("C02", "construction-discipline checks over go/ssa (raw re-slices of holey stores, uncanonicalised tuple allocation), table agreement of the sugar-shape switches, TS-SCCP Equal symmetry, provenance of the positional row digest",
